@@ -5,10 +5,12 @@
 # restores /repo. Never leaves the patch applied.
 set -u
 PATCH="$(readlink -f "$1")"; shift
+# NLV_REPO / NLV_VERIF: a scratch worktree of /repo and a scratch copy of /verif whose harness depends on it (tools/matrix_copy.sh)
+REPO="${NLV_REPO:-/repo}"; VERIF="${NLV_VERIF:-/verif}"
 CHECKS="${*:-C01 C02 C03 C04 C05 C06 C07 C08 C09 C10 C11 C12 C13 C14 C15 C16 C17}"
-cd /repo || exit 2
-if [ -n "$(git status --porcelain --untracked-files=no)" ]; then echo "/repo is not clean"; exit 2; fi
-trap 'git -C /repo checkout -- . >/dev/null 2>&1' EXIT
+cd "$REPO" || exit 2
+if [ -n "$(git status --porcelain --untracked-files=no)" ]; then echo "$REPO is not clean"; exit 2; fi
+trap 'git -C "$REPO" checkout -- . >/dev/null 2>&1' EXIT
 git apply "$PATCH" || { echo "patch does not apply"; exit 2; }
 if [ "${SKIP_TESTS:-0}" != "1" ]; then
   if cargo test --workspace --no-fail-fast --offline >/tmp/try_mutant_tests.log 2>&1; then echo "repo tests: pass"; else echo "repo tests: FAIL"; grep -E "^test .* FAILED|panicked" /tmp/try_mutant_tests.log | head -5; fi
@@ -16,7 +18,7 @@ fi
 CAUGHT=""
 for c in $CHECKS; do
   start=$(date +%s)
-  out=$(cd /verif && timeout 400 ./check "$c" --tier quick 2>&1)
+  out=$(cd "$VERIF" && timeout 900 ./check "$c" --tier quick 2>&1)
   code=$?
   secs=$(( $(date +%s) - start ))
   if echo "$out" | grep -q "^VIOLATION"; then
